@@ -512,27 +512,29 @@ func TestC13(t *testing.T) {
 	defer run.Finish()
 	run.Assume("an input is 'undecodable' when the oracle-side codec (label, authentication, CRC, compound/compress nesting, msgpack) finds no complete well-formed message in it; inputs that do contain one may have any C01-legal effect and are not judged here")
 	full := run.Thorough()
-	for ci := range c13Cfgs {
-		for _, part := range []string{"packets", "streams"} {
-			id := fmt.Sprintf("%s/cfg%d", part, ci)
-			k := ci*2 + map[string]int{"packets": 0, "streams": 1}[part]
-			if !run.Mine(k) || !run.Want(id) {
-				continue
-			}
-			run.Journal(id, "start")
-			var res []*c01Result
-			err := Bubble(t, func() {
-				if part == "packets" {
-					res = runC13Packets(run, run.Seed()*19+int64(ci), ci, id, full)
-				} else {
-					res = runC13Streams(run, run.Seed()*23+int64(ci), ci, id, full)
+	for rep := 0; rep < run.Pick(1, 16); rep++ {
+		for ci := range c13Cfgs {
+			for _, part := range []string{"packets", "streams"} {
+				id := fmt.Sprintf("%s/cfg%d/rep%d", part, ci, rep)
+				k := rep*16 + ci*2 + map[string]int{"packets": 0, "streams": 1}[part]
+				if !run.Mine(k) || !run.Want(id) {
+					continue
 				}
-			})
-			if err != nil {
-				res = append(res, &c01Result{"C13/bubble", err.Error()})
-			}
-			for _, r := range res {
-				run.Violation(id, r.Key, r.What, map[string]any{"cfg": c13Cfgs[ci].String()})
+				run.Journal(id, "start")
+				var res []*c01Result
+				err := Bubble(t, func() {
+					if part == "packets" {
+						res = runC13Packets(run, run.Seed()*19+int64(ci)+int64(rep)*1009, ci, id, full)
+					} else {
+						res = runC13Streams(run, run.Seed()*23+int64(ci)+int64(rep)*1013, ci, id, full)
+					}
+				})
+				if err != nil {
+					res = append(res, &c01Result{"C13/bubble", err.Error()})
+				}
+				for _, r := range res {
+					run.Violation(id, r.Key, r.What, map[string]any{"cfg": c13Cfgs[ci].String()})
+				}
 			}
 		}
 	}
